@@ -521,8 +521,15 @@ fn apply_single_macro(
             let end = tokens.len() - remaining.len();
 
             // Substitute macros inside macro arguments
+            // Macros which are currently being replaced stay disabled inside the arguments
             let args = args.into_iter().try_fold(Vec::new(), |mut vec, arg| {
-                let subbed_text = apply_macros(arg, macro_defs, false, source_manager)?;
+                let subbed_text = apply_macros_internal(
+                    arg.to_vec(),
+                    macro_defs,
+                    macro_disabled,
+                    false,
+                    source_manager,
+                )?;
                 vec.push(subbed_text);
                 Ok(vec)
             })?;
@@ -721,7 +728,7 @@ enum FoundMacro {
 
 /// Find the next instance of the named macro in a stream of tokens
 fn find_single_macro(
-    tokens: &[PreprocessToken],
+    tokens: &mut [PreprocessToken],
     search_pos: MacroSearchPosition,
     macros: &[Macro],
     macro_disabled: &mut [bool],
@@ -737,8 +744,16 @@ fn find_single_macro(
                 return Ok(FoundMacro::Defined(i));
             }
 
+            // A name that was not replaced because its macro was being replaced is never replaced later either
+            let mut set_no_expand = false;
             for macro_index in 0..macros.len() {
+                if tokens[i].is_no_expand() {
+                    break;
+                }
                 if macro_disabled[macro_index] {
+                    if i >= search_pos.next_pos && id.0 == macros[macro_index].name {
+                        set_no_expand = true;
+                    }
                     continue;
                 }
                 if search_pos.last_macro_function_index == macro_index && i < search_pos.next_pos {
@@ -763,6 +778,9 @@ fn find_single_macro(
 
                     return Ok(FoundMacro::User(macro_index, i));
                 }
+            }
+            if set_no_expand {
+                tokens[i].set_no_expand();
             }
         } else if let Token::Concat = &tokens[i].0 {
             if i < search_pos.next_pos {
